@@ -125,13 +125,15 @@ pub fn case_error(ctx: &mut Ctx, spec: &str) {
     ctx.emit("c20e", &[spec], &format!("{} {} D:{}", show_response(&r), server, hex(desc.as_bytes())));
 }
 
-pub fn case_status(ctx: &mut Ctx, name: &str, nnn: &str) {
-    let obs = match status_ctors().into_iter().find(|r| r.0 == name) {
+/// `variant` = index among the rows of that constructor (one row per argument it was executed on).
+pub fn case_status(ctx: &mut Ctx, name: &str, nnn: &str, variant: &str) {
+    let k: usize = variant.parse().unwrap_or(0);
+    let obs = match status_ctors().into_iter().filter(|r| r.0 == name).nth(k) {
         Some((_, _, Some(r))) => format!("{} {}", kind_str(r.kind), r.code),
         Some((_, _, None)) => "unknown-arg-shape".to_string(),
         None => "no-such-constructor".to_string(),
     };
-    ctx.emit("c20s", &[name, nnn], &obs);
+    ctx.emit("c20s", &[name, nnn, variant], &obs);
 }
 
 fn lean_bytes(b: &[u8]) -> String {
@@ -189,8 +191,11 @@ pub fn run(ctx: &mut Ctx) {
     if ctx.tier == "gen" {
         return gen(ctx);
     }
+    let mut seen: std::collections::HashMap<&str, usize> = std::collections::HashMap::new();
     for (name, nnn, _) in status_ctors() {
-        case_status(ctx, name, &nnn.to_string());
+        let k = seen.entry(name).or_insert(0);
+        case_status(ctx, name, &nnn.to_string(), &k.to_string());
+        *k += 1;
     }
     let mut rng = Rng::new(ctx.seed);
     let fixed = [
